@@ -14,8 +14,31 @@ use vharness::*;
 
 const VARS: [&str; 6] = ["qa", "qb", "qc", "qd", "qe", "qf"];
 const CLOS: [&str; 3] = ["cf1", "cf2", "cf3"];
-const STRUCTS: [(&str, &[&str]); 2] = [("Foo", &["fa", "fb"]), ("Bar", &["ga"])];
-const STRUCT_DECL: &str = "struct Foo(fa, fb); struct Bar(ga)";
+/// a struct is identified by its DECLARATION (index in this table), not by its name: `Node1/2/3` are three
+/// different structs all named `Node` (declared in function scopes), `PairA/B` come from one maker called twice
+struct SDef {
+    /// name of the constructor variable
+    ctor: &'static str,
+    /// the struct's own name (what an instance prints)
+    name: &'static str,
+    /// names of the accessor variables, in field order
+    fields: &'static [&'static str],
+}
+const STRUCTS: [SDef; 8] = [
+    SDef { ctor: "Foo", name: "Foo", fields: &["fa", "fb"] },
+    SDef { ctor: "Bar", name: "Bar", fields: &["ga"] },
+    SDef { ctor: "Qux", name: "Qux", fields: &["ua", "ub", "uc"] },
+    SDef { ctor: "Node1", name: "Node", fields: &["items1", "tag1"] },
+    SDef { ctor: "Node2", name: "Node", fields: &["tag2", "items2"] },
+    SDef { ctor: "Node3", name: "Node", fields: &["ia3", "ib3", "ic3"] },
+    SDef { ctor: "PairA", name: "Pair", fields: &["pla", "pra"] },
+    SDef { ctor: "PairB", name: "Pair", fields: &["plb", "prb"] },
+];
+const STRUCT_DECL: &str = "struct Foo(fa, fb); struct Bar(ga); struct Qux(ua, ub, uc); \
+mk1 := \\-> (struct Node(items, tag); [Node, items, tag]); mk2 := \\-> (struct Node(tag, items); [Node, tag, items]); \
+mk3 := \\-> (struct Node(ia, ib, ic); [Node, ia, ib, ic]); mkp := \\-> (struct Pair(pl, pr); [Pair, pl, pr]); \
+Node1, items1, tag1 := mk1(); Node2, tag2, items2 := mk2(); Node3, ia3, ib3, ic3 := mk3(); \
+PairA, pla, pra := mkp(); PairB, plb, prb := mkp()";
 const MAX_NODES: usize = 400;
 const MAX_LEN: usize = 8;
 
@@ -33,7 +56,8 @@ enum V {
     List(Vec<V>),
     /// canonical key text -> (key, value); optional default
     Dict(BTreeMap<String, (V, V)>, Option<Box<V>>),
-    Inst(String, Vec<V>),
+    /// (struct id = index in STRUCTS, fields)
+    Inst(usize, Vec<V>),
     /// something the reference semantics does not model (function, float, stream): canonical text
     Opaque(String),
 }
@@ -84,7 +108,7 @@ impl V {
                     Some(d) => format!("{{{}}}|d={}", body, d.canon()),
                 }
             }
-            V::Inst(n, fs) => format!("inst:{}({})", n, fs.iter().map(|x| x.canon()).collect::<Vec<_>>().join(",")),
+            V::Inst(n, fs) => format!("inst:{}({})", STRUCTS[*n].name, fs.iter().map(|x| x.canon()).collect::<Vec<_>>().join(",")),
             V::Opaque(t) => t.clone(),
         }
     }
@@ -235,7 +259,12 @@ impl<'a> CanonParser<'a> {
             if !self.eat("(") {
                 return None;
             }
-            return self.seq(")").map(|f| V::Inst(name, f));
+            // the text does not identify the declaration when several structs share the name
+            let ids: Vec<usize> = (0..STRUCTS.len()).filter(|i| STRUCTS[*i].name == name).collect();
+            if ids.len() != 1 {
+                return None;
+            }
+            return self.seq(")").map(|f| V::Inst(ids[0], f));
         }
         if self.eat("{") {
             let mut m = BTreeMap::new();
@@ -302,7 +331,7 @@ impl Ix {
         match self {
             Ix::I(n) => format!("[{}]", n),
             Ix::K(s) => format!("[{}]", str_src(s)),
-            Ix::F(s, f) => format!("[{}]", STRUCTS[*s].1[*f]),
+            Ix::F(s, f) => format!("[{}]", STRUCTS[*s].fields[*f]),
             Ix::S(lo, hi) => format!(
                 "[{}:{}]",
                 lo.map(|x| x.to_string()).unwrap_or_default(),
@@ -315,7 +344,7 @@ impl Ix {
         match self {
             Ix::I(n) => int_src(*n),
             Ix::K(s) => str_src(s),
-            Ix::F(s, f) => STRUCTS[*s].1[*f].to_string(),
+            Ix::F(s, f) => STRUCTS[*s].fields[*f].to_string(),
             Ix::S(..) => "null".into(),
         }
     }
@@ -384,7 +413,7 @@ fn index(v: &V, ix: &Ix) -> R<V> {
                 },
             }
         }
-        (V::Inst(name, fs), Ix::F(s, f)) if STRUCTS[*s].0 == name => Ok(fs[*f].clone()),
+        (V::Inst(sid, fs), Ix::F(s, f)) if s == sid => Ok(fs[*f].clone()),
         _ => Err(()),
     }
 }
@@ -499,8 +528,9 @@ fn set_index(v: &mut V, path: &[Ix], val: Option<V>, every: bool) -> R<()> {
                 }
             }
         },
-        V::Inst(name, fs) => match ix {
-            Ix::F(s, f) if STRUCTS[*s].0 == name => set_index(&mut fs[*f], rest, val, every),
+        V::Inst(sid, fs) => match ix {
+            // wrong variant 3 (seeded a5): writes accept any accessor whose index is in range
+            Ix::F(s, f) if s == sid || (wrong() == 3 && *f < fs.len()) => set_index(&mut fs[*f], rest, val, every),
             _ => Err(()),
         },
         _ => Err(()),
@@ -536,8 +566,9 @@ fn modify(v: &mut V, path: &[Ix], f: &mut dyn FnMut(&mut V) -> R<V>) -> R<V> {
             }
             modify(&mut m.get_mut(&kt).unwrap().1, rest, f)
         }
-        V::Inst(name, fs) => match ix {
-            Ix::F(s, fi) if STRUCTS[*s].0 == name => modify(&mut fs[*fi], rest, f),
+        V::Inst(sid, fs) => match ix {
+            // wrong variant 4 (seeded b5): pop / remove / consume compare structs by NAME
+            Ix::F(s, fi) if s == sid || (wrong() == 4 && STRUCTS[*s].name == STRUCTS[*sid].name && *fi < fs.len()) => modify(&mut fs[*fi], rest, f),
             _ => Err(()),
         },
         _ => Err(()),
@@ -579,8 +610,8 @@ fn modify_every(v: &mut V, path: &[Ix], f: &mut dyn FnMut(&mut V) -> R<()>) -> R
             }
             modify_every(&mut m.get_mut(&kt).unwrap().1, rest, f)
         }
-        V::Inst(name, fs) => match ix {
-            Ix::F(s, fi) if STRUCTS[*s].0 == name => modify_every(&mut fs[*fi], rest, f),
+        V::Inst(sid, fs) => match ix {
+            Ix::F(s, fi) if s == sid => modify_every(&mut fs[*fi], rest, f),
             _ => Err(()),
         },
         _ => Err(()),
@@ -1081,8 +1112,8 @@ fn enumerate(v: &V, rng: &mut Rng, out: &mut Vec<Pos>, cur: &mut Vec<Ix>, pkind:
                 }
             }
         }
-        V::Inst(name, fs) => {
-            let sid = STRUCTS.iter().position(|s| s.0 == name).unwrap_or(0);
+        V::Inst(sid, fs) => {
+            let sid = *sid;
             for (fi, x) in fs.iter().enumerate() {
                 cur.push(Ix::F(sid, fi));
                 enumerate(x, rng, out, cur, Kind::Inst, maxdepth);
@@ -1221,6 +1252,11 @@ struct Local {
     /// with-default op-assignments / of these: result differs when the default is always evaluated
     withdefault_cases: u64,
     b4_sensitive: u64,
+    /// statements through struct accessors / differ when writes accept a foreign accessor in range (a5) /
+    /// differ when pop, remove, consume compare structs by name (b5)
+    struct_cases: u64,
+    a5_sensitive: u64,
+    b5_sensitive: u64,
 }
 impl Local {
     fn arm(&mut self, a: &str) {
@@ -2216,14 +2252,8 @@ fn gen_expr(rng: &mut Rng, st: &Store, depth: usize) -> E {
             E { src: format!("{{{}}}", parts.join(", ")), val: V::Dict(m, def), alias }
         }
         94..=99 if depth > 0 => {
-            if rng.chance(1, 6) {
-                let a = gen_expr(rng, st, depth - 1);
-                E { src: format!("Bar({})", a.src), alias: a.alias, val: V::Inst("Bar".into(), vec![a.val]) }
-            } else {
-                let a = gen_expr(rng, st, depth - 1);
-                let b = gen_expr(rng, st, depth - 1);
-                E { src: format!("Foo({}, {})", a.src, b.src), alias: a.alias || b.alias, val: V::Inst("Foo".into(), vec![a.val, b.val]) }
-            }
+            let sid = *rng.pick(&[0usize, 0, 1, 2, 2, 3, 3, 4, 4, 5, 6, 6, 7]);
+            gen_inst(rng, st, depth - 1, sid)
         }
         _ => lit(V::Int(rng.range(0, 9))),
     };
@@ -2231,6 +2261,23 @@ fn gen_expr(rng: &mut Rng, st: &Store, depth: usize) -> E {
         lit(V::Int(rng.range(0, 9)))
     } else {
         e
+    }
+}
+/// an instance of struct `sid`; the fields hold lists / dicts / ints, often copied from variables
+fn gen_inst(rng: &mut Rng, st: &Store, depth: usize, sid: usize) -> E {
+    let fs: Vec<E> = (0..STRUCTS[sid].fields.len())
+        .map(|_| {
+            let mut e = gen_expr(rng, st, depth);
+            if !e.val.is_container() && rng.chance(1, 2) {
+                e = gen_expr(rng, st, depth.max(1));
+            }
+            e
+        })
+        .collect();
+    E {
+        src: format!("{}({})", STRUCTS[sid].ctor, fs.iter().map(|e| e.src.clone()).collect::<Vec<_>>().join(", ")),
+        alias: fs.iter().any(|e| e.alias),
+        val: V::Inst(sid, fs.into_iter().map(|e| e.val).collect()),
     }
 }
 fn gen_list_expr(rng: &mut Rng, st: &Store) -> E {
@@ -2272,6 +2319,8 @@ enum Eff {
     DeclClo(Clo),
     Set { x: usize, path: Vec<Ix>, val: V, every: bool },
     EveryMulti { xs: Vec<usize>, val: V },
+    /// `every x[p1], x[p2] = v`: the targets are written left to right
+    EveryTargets { targets: Vec<(usize, Vec<Ix>)>, val: V },
     Op { x: usize, path: Vec<Ix>, op: Op, rhs: V },
     EveryOp { x: usize, path: Vec<Ix>, op: Op, rhs: V },
     Extract { kind: Ext, y: usize, x: usize, path: Vec<Ix> },
@@ -2358,6 +2407,16 @@ fn apply(eff: &Eff, st: &mut Store) -> Option<bool> {
         Eff::EveryMulti { xs, val } => {
             for x in xs {
                 if assign_into(&mut st.vars, *x, &[], val.clone()).is_err() {
+                    return Some(false);
+                }
+            }
+            Some(true)
+        }
+        Eff::EveryTargets { targets, val } => {
+            // mirrors the clean tree: a legitimate earlier target is already written when a later one raises
+            for (x, p) in targets {
+                let r = if p.is_empty() { assign_into(&mut st.vars, *x, &[], val.clone()) } else { set_index(&mut st.vars[*x], p, Some(val.clone()), true) };
+                if r.is_err() {
                     return Some(false);
                 }
             }
@@ -2715,6 +2774,198 @@ fn gen_kind_value(rng: &mut Rng, st: &Store, want: Option<Ty>, avoid: Option<Ty>
         (Some(Ty::Bytes), _) => lit(V::Bytes(gen_str(rng, 1))),
         (_, Some(Ty::Int)) => lit(V::Str(gen_str(rng, 1))),
         _ => lit(V::Int(rng.range(-5, 20))),
+    }
+}
+
+/// every statement form through struct field accessors, ~35 % FOREIGN ones (accessor of another struct:
+/// differently named, or same-named but a different declaration), at the end or in the middle of a path
+fn gen_struct(rng: &mut Rng, st: &Store, _ill: bool) -> Option<BGen> {
+    let nv = st.vars.len();
+    let mut insts: Vec<(usize, Pos)> = vec![];
+    for x in 0..nv {
+        for p in positions(&st.vars[x], rng) {
+            if !p.virt && p.kind == Kind::Inst && p.path.len() <= 2 {
+                insts.push((x, p));
+            }
+        }
+    }
+    let y = rng.below(nv as u64) as usize;
+    if insts.is_empty() || rng.chance(1, 12) {
+        // make one (also inside a list / dict)
+        let sid = *rng.pick(&[0usize, 2, 3, 3, 4, 4, 5, 6, 7]);
+        let inst = gen_inst(rng, st, 1, sid);
+        let e = match rng.below(4) {
+            0 => E { src: format!("[{}]", inst.src), val: V::List(vec![inst.val]), alias: inst.alias },
+            1 => {
+                let k = gen_key(rng);
+                let (kt, kv) = ix_key(&k).unwrap();
+                let mut m = BTreeMap::new();
+                m.insert(kt, (kv, inst.val));
+                E { src: format!("{{{}: {}}}", k.key_src(), inst.src), val: V::Dict(m, None), alias: inst.alias }
+            }
+            _ => inst,
+        };
+        if !ty_of(y).accepts(&e.val) {
+            return None;
+        }
+        return Some(BGen {
+            src: format!("{} = {}", VARS[y], e.src),
+            key: "ref:assign",
+            form: "assign".into(),
+            kind: e.val.kind(),
+            probe: vec![],
+            copies_container: e.alias,
+            eff: Eff::AssignVal { y, val: Ok(e.val) },
+        });
+    }
+    // instances of same-named structs are where pop / remove / consume can go wrong: prefer them a bit
+    let same_named = |sid: usize| (0..STRUCTS.len()).any(|o| o != sid && STRUCTS[o].name == STRUCTS[sid].name);
+    let form = rng.below(16);
+    let is_extract = (7..=10).contains(&form);
+    let mut pick = insts[rng.below(insts.len() as u64) as usize].clone();
+    for _ in 0..(if is_extract { 6 } else { 2 }) {
+        if let Ok(V::Inst(sid, _)) = get_path(&st.vars[pick.0], &pick.1.path) {
+            if same_named(sid) {
+                break;
+            }
+        }
+        pick = insts[rng.below(insts.len() as u64) as usize].clone();
+    }
+    let (x, pos) = pick;
+    let Ok(V::Inst(sid, fields)) = get_path(&st.vars[x], &pos.path) else { return None };
+    let nf = fields.len();
+    // accessor: own, or foreign (same-named other declaration / differently named struct)
+    let accessor = |rng: &mut Rng, foreign: bool| -> Ix {
+        if !foreign {
+            return Ix::F(sid, rng.below(nf as u64) as usize);
+        }
+        let same: Vec<usize> = (0..STRUCTS.len()).filter(|o| *o != sid && STRUCTS[*o].name == STRUCTS[sid].name).collect();
+        let other: Vec<usize> = (0..STRUCTS.len()).filter(|o| STRUCTS[*o].name != STRUCTS[sid].name).collect();
+        let o = if !same.is_empty() && rng.chance(if is_extract { 9 } else { 6 }, 10) { same[rng.below(same.len() as u64) as usize] } else { other[rng.below(other.len() as u64) as usize] };
+        Ix::F(o, rng.below(STRUCTS[o].fields.len() as u64) as usize)
+    };
+    let foreign = rng.chance(if is_extract { 45 } else { 35 }, 100);
+    let mut acc = accessor(rng, foreign);
+    if !foreign && is_extract {
+        // an own accessor of a field that holds a list, when there is one (pop / remove need it)
+        let lists: Vec<usize> = (0..nf).filter(|f| matches!(&fields[*f], V::List(l) if !l.is_empty())).collect();
+        if !lists.is_empty() && rng.chance(2, 3) {
+            acc = Ix::F(sid, lists[rng.below(lists.len() as u64) as usize]);
+        }
+    }
+    let cls = if !foreign {
+        "own"
+    } else if let Ix::F(o, _) = &acc {
+        if STRUCTS[*o].name == STRUCTS[sid].name {
+            "foreign-same-name"
+        } else {
+            "foreign"
+        }
+    } else {
+        "own"
+    };
+    let mut base = pos.path.clone();
+    base.push(acc.clone());
+    // the value the accessor addresses (own) or would address by position (foreign): used to choose what follows
+    let slot_val: Option<V> = match &acc {
+        Ix::F(_, f) => fields.get(*f).cloned(),
+        _ => None,
+    };
+    // sometimes continue below the accessor, which puts a foreign accessor in the MIDDLE of the path
+    let deeper = |rng: &mut Rng, base: &Vec<Ix>| -> Vec<Ix> {
+        let mut p = base.clone();
+        if rng.chance(2, 5) {
+            if let Some(sv) = &slot_val {
+                let subs = positions(sv, rng);
+                if let Some(c) = pick_pos(rng, &subs, &|c| !c.virt && c.path.len() == 1) {
+                    p.extend(c.path.iter().cloned());
+                }
+            }
+        }
+        p
+    };
+    let mk = |src: String, key: &'static str, f: &str, probe: Vec<(usize, Vec<Ix>)>, copies: bool, eff: Eff| -> Option<BGen> {
+        Some(BGen { src, key, form: format!("{}({})", f, cls), kind: Kind::Inst, probe, copies_container: copies, eff })
+    };
+    match form {
+        0..=2 => {
+            let path = deeper(rng, &base);
+            let e = gen_expr(rng, st, 2);
+            mk(format!("{}{} = {}", VARS[x], path_src(&path), e.src), "ref:struct-set", "struct-set", vec![(x, parent_of(&path))], false, Eff::Set { x, path, val: e.val, every: false })
+        }
+        3 | 4 => {
+            // every x[a1], x[a2] = v with the foreign accessor first or second; or a slice below the accessor
+            let e = gen_expr(rng, st, 1);
+            if rng.chance(1, 4) {
+                let mut path = base.clone();
+                path.push(Ix::S(None, None));
+                return mk(format!("every {}{} = {}", VARS[x], path_src(&path), e.src), "ref:struct-every", "struct-every", vec![(x, base.clone())], false, Eff::Set { x, path, val: e.val, every: true });
+            }
+            let mut p2 = pos.path.clone();
+            p2.push(accessor(rng, false));
+            let targets = if rng.chance(1, 2) { vec![(x, base.clone()), (x, p2)] } else { vec![(x, p2), (x, base.clone())] };
+            let tsrc: Vec<String> = targets.iter().map(|(x, p)| format!("{}{}", VARS[*x], path_src(p))).collect();
+            mk(format!("every {} = {}", tsrc.join(", "), e.src), "ref:struct-every", "struct-every", vec![(x, pos.path.clone())], false, Eff::EveryTargets { targets, val: e.val })
+        }
+        5 | 6 => {
+            let path = deeper(rng, &base);
+            let cur = get_path(&st.vars[x], &path).ok().or_else(|| slot_val.clone());
+            let (op, rhs) = match cur {
+                Some(V::Int(_)) => (Op::Plus, lit(V::Int(rng.range(1, 9)))),
+                Some(V::Dict(..)) => (Op::AddKey, pure_lit(rng, 2)),
+                Some(V::List(_)) if rng.chance(1, 3) => (Op::Concat, pure_lit(rng, 1)),
+                _ => (Op::Append, gen_expr(rng, st, 1)),
+            };
+            mk(format!("{}{} {}= {}", VARS[x], path_src(&path), op.sym(), rhs.src), "ref:struct-opassign", "struct-opassign", vec![(x, path.clone())], false, Eff::Op { x, path, op, rhs: rhs.val })
+        }
+        7..=10 => {
+            // pop / remove / consume: they raise before mutating anything when the accessor is foreign
+            let (kind, kw, path) = match (rng.below(3), &slot_val) {
+                (0, Some(V::List(l))) if !l.is_empty() || foreign => (Ext::Pop, "pop", base.clone()),
+                (1, Some(V::List(l))) if !l.is_empty() => {
+                    let mut p = base.clone();
+                    let n = l.len() as i64;
+                    let j = rng.below(n as u64) as i64;
+                    p.push(Ix::I(if rng.chance(1, 3) { j - n } else { j }));
+                    (Ext::Remove, "remove", p)
+                }
+                (1, Some(V::Dict(m, _))) if !m.is_empty() => {
+                    let ks: Vec<&V> = m.values().map(|(k, _)| k).collect();
+                    let mut p = base.clone();
+                    p.push(key_ix(ks[rng.below(ks.len() as u64) as usize])?);
+                    (Ext::Remove, "remove", p)
+                }
+                (0, _) => (Ext::Pop, "pop", base.clone()),
+                _ => (Ext::Consume, "consume", deeper(rng, &base)),
+            };
+            let probe = vec![(x, if kind == Ext::Pop { path.clone() } else { parent_of(&path) })];
+            mk(format!("{} = {} {}{}", VARS[y], kw, VARS[x], path_src(&path)), "ref:struct-extract", &format!("struct-extract-{}", kw), probe, false, Eff::Extract { kind, y, x, path })
+        }
+        11 | 12 => {
+            // functional update of the instance: qy = qx[..]{acc = v}
+            let e = gen_expr(rng, st, 1);
+            let mut copy = V::Inst(sid, fields.clone());
+            let r = set_index(&mut copy, &[acc.clone()], Some(e.val), false).map(|_| copy);
+            mk(
+                format!("{} = {}{}{{{} = {}}}", VARS[y], VARS[x], path_src(&pos.path), acc.key_src(), e.src),
+                "ref:struct-update",
+                "struct-update",
+                vec![],
+                true,
+                Eff::AssignVal { y, val: r },
+            )
+        }
+        13 => {
+            let path = deeper(rng, &base);
+            let (a, pa, b, pb) = if rng.chance(1, 2) { (x, path.clone(), y, vec![]) } else { (y, vec![], x, path.clone()) };
+            mk(format!("swap {}{}, {}{}", VARS[a], path_src(&pa), VARS[b], path_src(&pb)), "ref:struct-swap", "struct-swap", vec![(x, parent_of(&path))], false, Eff::Swap { x: a, px: pa, y: b, py: pb })
+        }
+        _ => {
+            let path = deeper(rng, &base);
+            let r = get_path(&st.vars[x], &path);
+            let copies = r.as_ref().map(|v| v.is_container()).unwrap_or(false);
+            mk(format!("{} = {}{}", VARS[y], VARS[x], path_src(&path)), "ref:struct-read", "struct-read", vec![], copies, Eff::AssignVal { y, val: r })
+        }
     }
 }
 /// statements that write a whole TYPED variable, mostly with a value its declared type rejects
@@ -3100,6 +3351,9 @@ fn gen_b(rng: &mut Rng, st: &Store, ill: bool) -> Option<BGen> {
     }
     if form != "assign" && rng.chance(1, 6) {
         return gen_withdefault(rng, st, ill);
+    }
+    if form != "assign" && rng.chance(1, 3) {
+        return gen_struct(rng, st, ill);
     }
     match form {
         "assign" => {
@@ -3800,6 +4054,22 @@ fn run_b_shard(mut rng: Rng, n_hist: usize, max_len: usize) -> Local {
                         loc.a4_sensitive += 1;
                     }
                 }
+                if g.key.starts_with("ref:struct-") {
+                    loc.struct_cases += 1;
+                    for (w, is_a) in [(3u8, true), (4u8, false)] {
+                        set_wrong(w);
+                        let mut alt = store.clone();
+                        let alt_ok = apply(&g.eff, &mut alt);
+                        set_wrong(0);
+                        if alt_ok != Some(ok) || alt.vars != ns.vars {
+                            if is_a {
+                                loc.a5_sensitive += 1;
+                            } else {
+                                loc.b5_sensitive += 1;
+                            }
+                        }
+                    }
+                }
                 if matches!(g.eff, Eff::WithDefault { .. }) {
                     loc.withdefault_cases += 1;
                     set_wrong(2);
@@ -3971,7 +4241,9 @@ fn main() {
                 remove of index/key/slice, x{k = v}, closures capturing a variable or a value, function calls, and op-/index-assignments \
                 whose right-hand side mutates the same or another variable (nested assignment, pop/consume/remove, updater closure), \
                 whole-variable writes of every form into type-annotated variables (mostly of a rejected kind), and the with-default \
-                form (d[k] = dflt) op= v with pure / side-effecting / raising defaults on present and absent keys, against a \
+                form (d[k] = dflt) op= v with pure / side-effecting / raising defaults on present and absent keys, and every statement \
+                form through struct field accessors of 8 struct declarations (three share the name Node, two the name Pair), ~35 % of \
+                them accessors of ANOTHER struct, against a \
                 pure tree store in c01.rs. A case (= one statement of one history) is non-trivial when, in the real \
                 interpreter at the time of the statement, a payload on the mutated index path has strong count > 1 (it is \
                 shared with another holder), or the statement raises, or (non-mutating forms: assign, update, closure, call) \
@@ -4022,6 +4294,7 @@ fn main() {
     let (mut a_cases, mut ref_cases, mut adopted, mut selfcheck, mut shared, mut raised, mut hist) = (0u64, 0u64, 0u64, 0u64, 0u64, 0u64, 0u64);
     let (mut order_sensitive, mut rhsmut_cases) = (0u64, 0u64);
     let (mut typed_cases, mut a4_sensitive, mut withdefault_cases, mut b4_sensitive) = (0u64, 0u64, 0u64, 0u64);
+    let (mut struct_cases, mut a5_sensitive, mut b5_sensitive) = (0u64, 0u64, 0u64);
     let mut samples = vec![];
     for (_, loc) in results {
         for (h, nt) in &loc.cases {
@@ -4060,6 +4333,9 @@ fn main() {
         a4_sensitive += loc.a4_sensitive;
         withdefault_cases += loc.withdefault_cases;
         b4_sensitive += loc.b4_sensitive;
+        struct_cases += loc.struct_cases;
+        a5_sensitive += loc.a5_sensitive;
+        b5_sensitive += loc.b5_sensitive;
         rhsmut_cases += loc.rhsmut_cases;
     }
     samples.truncate(12);
@@ -4080,6 +4356,10 @@ fn main() {
     rep.notes.push(format!(
         "with-default op-assignments `(d[k] = dflt) op= v`: {}; of these {} give a different result when the default is evaluated although the key is present (sensitive to seeded change b4)",
         withdefault_cases, b4_sensitive
+    ));
+    rep.notes.push(format!(
+        "statements through struct field accessors (ref:struct-*): {}; of these {} give a different result when writes accept a foreign accessor whose index is in range (sensitive to seeded change a5) and {} when pop/remove/consume compare structs by name (sensitive to seeded change b5)",
+        struct_cases, a5_sensitive, b5_sensitive
     ));
     rep.notes.push(format!("threads: {}", threads));
     rep.notes.push("arm histogram: every case is counted twice, once under its statement form (`si:shared`, `ref:opassign(append):fail`) and once under depth (part A, `depth:d2:shared`) or the kind of the mutated container / copied value (part B, `kind:ddict:shared`)".to_string());
